@@ -700,6 +700,14 @@ pub fn sites() -> Vec<Site> {
         let exp = if *z >= Z::from(1) { Expect::Sparse { total_bits: z * 8, ones: vec![Z::from(7)] } } else { Expect::None };
         main_only(format!("{}#d8 1\n", bankdef(&format!(" bits = 8\n addr = 0\n size = {}\n outp = 0\n fill = true", m.e()))), exp)
     }));
+    // a bank whose address unit is wider than a byte: its size in bits is units x unit width, and that is what has to
+    // fit; a second bank makes the size take part in sums with output positions
+    v.push(site("bankdef-size-wide-unit-two-banks", Value, "#bankdef a { bits = 256, addr = 0, size = N, outp = 8 * 0x100 } / #bankdef b { bits = 8, addr = 0, size = 1, outp = 0 } / #d8 1", |m| {
+        main_only(format!("{}#bankdef b {{\n bits = 8\n addr = 0\n size = 1\n outp = 0\n}}\n#d8 1\n", bankdef(&format!(" bits = 256\n addr = 0\n size = {}\n outp = 8 * 0x100", m.e()))), Expect::None)
+    }));
+    v.push(site("bankdef-addr_end-wide-unit-two-banks", Value, "#bankdef a { bits = 256, addr = 0, addr_end = N, outp = 8 * 0x100 } / #bankdef b { bits = 8, addr = 0, size = 1, outp = 0 } / #d8 1", |m| {
+        main_only(format!("{}#bankdef b {{\n bits = 8\n addr = 0\n size = 1\n outp = 0\n}}\n#d8 1\n", bankdef(&format!(" bits = 256\n addr = 0\n addr_end = {}\n outp = 8 * 0x100", m.e()))), Expect::None)
+    }));
     v.push(site("bankdef-addr_end", Value, "#bankdef a { bits = 8, addr = 0, addr_end = N, outp = 0 } / #d8 1", |m| {
         let exp = if *m.z() >= Z::from(1) { exact(&[1]) } else { Expect::None };
         main_only(format!("{}#d8 1\n", bankdef(&format!(" bits = 8\n addr = 0\n addr_end = {}\n outp = 0", m.e()))), exp)
